@@ -184,6 +184,16 @@ class Model:
         except Exception:
             self.p.kill()
 
+    def restart(self):
+        lines = self.lines
+        try:
+            self.p.kill()
+            self.p.wait(timeout=5)
+        except Exception:
+            pass
+        self.__init__()
+        self.lines = lines
+
 
 class CaseTimeout(Exception):
     pass
@@ -209,6 +219,7 @@ def run_one(mod, case, M, limit):
         r = mod.check(case, M)
     except CaseTimeout:
         r = {"key": json.dumps(case, sort_keys=True, default=str)[:200], "nontrivial": False, "tags": ["timeout"], "failures": [], "timeout": True}
+        M.restart()      # the pipe may hold an unread answer
     finally:
         signal.alarm(0)
     return r
@@ -274,6 +285,9 @@ def worker_main(args):
             M = Model()
             continue
         res["evaluations"] += 1
+        if res["evaluations"] % 200 == 0:
+            res["model_lines"] = M.lines
+            dump_result(res, args.out)      # a worker killed from outside still leaves what it did
         if r.get("timeout"):
             res["timeouts"] += 1
         if r.get("nontrivial"):
@@ -295,8 +309,15 @@ def worker_main(args):
                 res["failures"].append(f)
     res["model_lines"] = M.lines
     M.close()
-    with open(args.out, "w") as fh:
+    res["complete"] = True
+    dump_result(res, args.out)
+
+
+def dump_result(res, path):
+    tmp = path + ".part"
+    with open(tmp, "w") as fh:
         json.dump(res, fh, default=str)
+    os.replace(tmp, path)
 
 
 # --------------------------------------------------------------------------- main
@@ -391,7 +412,7 @@ def check_main(args):
     ncases = meta["cases"][args.tier]
     if proof_problems:
         ncases *= 4  # escalated failing-input search
-    nw = max(1, min(16, int(meta.get("workers", 16)), ncases))
+    nw = max(1, min(16, int(meta.get("workers", 12)), ncases, (os.cpu_count() or 4)))
     per = (ncases + nw - 1) // nw
     budget = meta.get("budget_s", {"quick": 150, "thorough": 1500})[args.tier] * (4 if proof_problems else 1)
     tmpdir = os.path.join(VERIF, "replays", f".tmp-{pid}-{os.getpid()}")
@@ -409,6 +430,16 @@ def check_main(args):
         procs.append((w, out, subprocess.Popen(cmd, env=env, stdout=logf, stderr=subprocess.STDOUT, cwd=VERIF), logf))
     results = []
     infra = []
+
+    def launch(w, out, suffix=""):
+        env = dict(os.environ, PYTHONHASHSEED=hashseeds[w % len(hashseeds)], PS_REPO=REPO)
+        env[GUARD] = "1"
+        env["PYTHONPATH"] = REPO + os.pathsep + VERIF
+        cmd = [sys.executable, os.path.abspath(__file__), pid, "--worker", "--wid", str(w), "--n", str(per),
+               "--seed", str(args.seed), "--tier", args.tier, "--out", out, "--budget", str(budget)]
+        logf = open(os.path.join(tmpdir, f"w{w}{suffix}.log"), "w")
+        return subprocess.Popen(cmd, env=env, stdout=logf, stderr=subprocess.STDOUT, cwd=VERIF), logf
+
     for w, out, p, logf in procs:
         try:
             p.wait(timeout=budget * 3 + 600)
@@ -416,10 +447,24 @@ def check_main(args):
             p.kill()
             infra.append(f"worker {w} exceeded the time limit")
         logf.close()
+        ok = os.path.exists(out) and json.load(open(out)).get("complete")
+        if not ok and p.returncode not in (0, None):
+            # died without finishing (killed from outside, out of memory …): run it again, alone
+            first_rc = p.returncode
+            p2, logf2 = launch(w, out, ".retry")
+            try:
+                p2.wait(timeout=budget * 3 + 600)
+            except subprocess.TimeoutExpired:
+                p2.kill()
+            logf2.close()
+            ok = os.path.exists(out) and json.load(open(out)).get("complete")
+            if not ok:
+                infra.append(f"worker {w} died twice (exit codes {first_rc}, {p2.returncode}): "
+                             + open(os.path.join(tmpdir, f"w{w}.retry.log")).read()[-1500:])
         if os.path.exists(out):
             results.append(json.load(open(out)))
-        else:
-            infra.append(f"worker {w} produced no result: " + open(os.path.join(tmpdir, f"w{w}.log")).read()[-1500:])
+        elif not any(m.startswith(f"worker {w} ") for m in infra):
+            infra.append(f"worker {w} produced no result (exit code {p.returncode}): " + open(os.path.join(tmpdir, f"w{w}.log")).read()[-1500:])
     # aggregate
     evaluations = sum(r["evaluations"] for r in results)
     keys = set(k for r in results for k in r["keys"])
